@@ -14,6 +14,7 @@ mod latest;
 mod msghdr;
 mod radial;
 mod rda;
+mod scan;
 mod search;
 mod sim;
 mod summary;
@@ -27,6 +28,7 @@ fn main() {
     let args = Args::parse();
     match args.module.as_str() {
         "sweep" => sweep::run(&args),
+        "scan" => scan::run(&args),
         "radial" => radial::run(&args),
         "container" => container::run(&args),
         "totalc" => container::run_total(&args),
